@@ -12,7 +12,7 @@ A state is a pipeline state plus
                and has not done so yet.
 
 Transitions: every transition of the pipeline (`move`), with the program order of the reader goroutine as its
-guard – the goroutine does not reach its deferred block (`<-sema; wg.Done()`, the `finish` transition that makes
+guard – the goroutine does not reach its deferred block (`<-sema; out.stopFileReading(name); wg.Done()`, the `finish` transition that makes
 the source `done`) while its `incErrors` call is still ahead of it; and `count`: the `incErrors` call itself
 (`out.incErrors()` of the open-failure branch / the `OnError` callback inside `syncReaderToBatcher`), possible at
 any moment of the goroutine's life.  That the code has this order is what `error_count_precedes_done` (control
